@@ -53,6 +53,7 @@ def work(tier, seed):
     items += [{"kind": "bernoulli", "part": i, "parts": 8} for i in range(8)]
     items += [{"kind": "correlated", "p1": p} for p in b["corr_p"]]
     items += [{"kind": "sample"}]
+    items += [{"kind": "roc_far"}]
     return items
 
 
@@ -166,6 +167,43 @@ def run(item, ctx, tier, seed):
         ctx.sample({"kind": "normal", "mu_pos": mp, "mu_neg": MU_NEG, "sigma": b["sigma"], "rates": b["rates"]})
         return None
 
+    if item["kind"] == "roc_far":
+        # models far from the origin in units of their spread (|mu| / sigma up to 1e9): a threshold is a rounded double
+        # there, so the rates of roc() must be those *at the returned thresholds*, not the requested ones
+        rates = np.array([1e-6, 0.01, 0.1, 0.25, 0.5, 0.77, 0.9, 0.999])
+        for mp, mn, sp, sn in ((1e6 + 3, 1e6, 1.0, 1.0), (3.0, -4e8, 2.0, 1.5), (-5e5, -5e5 - 2, 0.5, 0.25), (1e9, 1e9 - 1, 1.0, 1.0)):
+            for sc in ("pos", "neg"):
+                ds = NormalDataset(mu_pos=mp, mu_neg=mn, sigma_pos=sp, sigma_neg=sn, score_class=sc)
+                case = {"kind": "roc_far", "mu_pos": mp, "mu_neg": mn, "sigma_pos": sp, "sigma_neg": sn, "score_class": sc}
+                ctx.state()
+                for kw in ({"fnr": rates.copy()}, {"fpr": rates.copy()}):
+                    ok, rc = guarded(ctx, "roc", dict(case, given=list(kw)), lambda: ds.roc(**kw))
+                    ctx.tick()
+                    ctx.nontrivial()
+                    if not ok:
+                        continue
+                    th = np.asarray(rc.thresholds, dtype=float)
+                    if not (np.allclose(np.asarray(rc.fnr), np.asarray(ds.fnr(th)), rtol=1e-12, atol=0)
+                            and np.allclose(np.asarray(rc.fpr), np.asarray(ds.fpr(th)), rtol=1e-12, atol=0)):
+                        ctx.fail("roc-rates-consistent-with-thresholds", dict(case, given=list(kw)), observed=[rc.fnr, rc.fpr],
+                                 expected=[ds.fnr(th), ds.fpr(th)])
+                    # and the analytic rates at those thresholds are the normal tail probabilities (exact standardisation)
+                    for nm, mu, si in (("fnr", mp, sp), ("fpr", mn, sn)):
+                        want = []
+                        for x in th.tolist():
+                            z = float((F(x) - F(mu)) / F(si))
+                            lower_tail = 0.5 * math.erfc(-z / math.sqrt(2.0))  # erfc keeps the deep tails
+                            upper_tail = 0.5 * math.erfc(z / math.sqrt(2.0))
+                            # (the analytic rates are those of the normal part above: FNR the lower tail of the positives,
+                            # FPR the upper tail of the negatives)
+                            want.append(lower_tail if nm == "fnr" else upper_tail)
+                        got = np.asarray(getattr(rc, nm), dtype=float)
+                        if not np.allclose(got, want, rtol=1e-9, atol=1e-300):
+                            ctx.fail("rate-is-normal-cdf", dict(case, given=list(kw), metric=nm), observed=got, expected=want)
+                ctx.outcome(("roc_far", mp, mn, sc))
+        ctx.sample({"kind": "roc_far", "models": 4})
+        return None
+
     if item["kind"] == "from_metrics":
         for fnr, fpr in itertools.product(b["rates"], repeat=2):
             for s1, s2 in itertools.product(b["supports"], [1, 7]):
@@ -256,7 +294,7 @@ def run(item, ctx, tier, seed):
 
         getcontext().prec = 60
         for p2 in b["corr_p"]:
-            rhos = list(b["corr_rho"])
+            rhos = list(b["corr_rho"]) + [-3.0, -1.5, 1.25, 2.0]  # beyond +-1: still a valid joint law when a marginal is 0 or 1
             cc = (1 - p1) * (1 - p2)
             ss = math.sqrt(p1 * p2 * cc)
             if ss > 0:
@@ -274,7 +312,8 @@ def run(item, ctx, tier, seed):
                 probs = [float(q) for q in (da, 1 - dp2 - da, 1 - dp1 - da, dp1 + dp2 + da - 1)]
                 valid_exactish = all(q >= 0 for q in probs)
                 # closer to zero than the rounding of the float evaluation (a few ulps of 1): either answer admissible
-                borderline = any(abs(q) < 1e-15 for q in probs)
+                # (an exact zero is decided by rounding as well - unless a marginal is 0 or 1, where the formula is exact)
+                borderline = any(0 < abs(q) < 1e-15 for q in probs) or (any(q == 0 for q in probs) and 0 < p1 < 1 and 0 < p2 < 1)
                 for n in b["corr_n"]:
                     for random in (False, True):
                         case = {"p1": p1, "p2": p2, "rho": rho, "n": n, "random": random, "joint": probs}
